@@ -1354,3 +1354,292 @@ Proof.
   - cbn. repeat constructor; cbn; intuition discriminate.
   - cbn. repeat split; repeat constructor; cbn; intuition discriminate.
 Qed.
+
+(* ====================================================================== as_dict terminates on arbitrary entries *)
+Lemma mapM_nofuel {A B} (g : A -> res B) l : (forall a, In a l -> g a <> Fuel) -> mapM g l <> Fuel.
+Proof.
+  induction l as [|a l IH]; intros H; cbn [mapM]; [discriminate|].
+  pose proof (H a (or_introl eq_refl)) as Ha. destruct (g a); cbn [bind]; try congruence.
+  specialize (IH (fun x Hx => H x (or_intror Hx))). destruct (mapM g l); cbn [bind]; congruence.
+Qed.
+
+Lemma dict_set_in {A} (d : list (list Z * A)) k v kv : In kv (dict_set d k v) -> snd kv = v \/ In kv d.
+Proof.
+  induction d as [|[k' v'] d IH]; cbn [dict_set].
+  - intros [<-|[]]. now left.
+  - destruct (list_eqb k' k); cbn [In].
+    + intros [<-|H]; [now left|right; now right].
+    + intros [<-|H]; [right; now left|]. destruct (IH H); [now left|right; now right].
+Qed.
+
+Lemma dict_of_in es kv : In kv (dict_of es) -> In (snd kv) es.
+Proof.
+  unfold dict_of. assert (H : forall d, In kv (fold_left (fun d e => dict_set d (l_key e) e) es d) ->
+                                        In kv d \/ In (snd kv) es).
+  { induction es as [|e es IH]; intros d; cbn [fold_left]; [now left|].
+    intros Hin. destruct (IH _ Hin) as [Hd|He]; [|right; now right].
+    destruct (dict_set_in _ _ _ _ Hd) as [->|Hd']; [right; now left|now left]. }
+  intros Hin. destruct (H [] Hin) as [[]|He]. exact He.
+Qed.
+
+Section AsDictTerminates.
+  Variable es : list lentry.
+  Hypothesis Hids : NoDup (map l_id es).
+  Hypothesis Hroot : ~ In root_id (map l_id es).
+  Hypothesis Hval : forall e, In e es -> l_val e <> Fuel.
+
+  Lemma id_inj x y : In x es -> In y es -> l_id x = l_id y -> x = y.
+  Proof.
+    clear Hroot Hval. induction es as [|a l IH]; intros Hx Hy Heq; [contradiction|].
+    cbn [map] in Hids. inversion Hids as [|? ? Hn Hd]; subst.
+    destruct Hx as [->|Hx], Hy as [->|Hy]; try reflexivity.
+    - exfalso. apply Hn. rewrite Heq. now apply in_map.
+    - exfalso. apply Hn. rewrite <- Heq. now apply in_map.
+    - now apply IH.
+  Qed.
+
+  (* the call stack of as_dict: identities from the current node up to the root *)
+  Inductive chain : list ident -> ident -> Prop :=
+  | ch_root : chain [root_id] root_id
+  | ch_step path p e : chain path p -> In e es -> l_par e = p -> ~ In (l_id e) path ->
+                       chain (l_id e :: path) (l_id e).
+
+  Lemma chain_shape path p : chain path p ->
+    (exists t, path = p :: t) /\ NoDup path /\ incl path (root_id :: map l_id es).
+  Proof.
+    induction 1 as [|path p e _ (Hs & Hnd & Hinc) He Hp Hn].
+    - split; [now exists []|]. split; [repeat constructor; intros []|]. intros x [<-|[]]. now left.
+    - split; [now exists path|]. split; [now constructor|].
+      intros x [<-|Hx]; [right; now apply in_map|auto].
+  Qed.
+
+  Lemma chain_par path p : chain path p -> forall x, In x es -> In (l_id x) path -> In (l_par x) (tl path).
+  Proof.
+    induction 1 as [|path p e Hc IH He Hp Hn]; intros x Hx Hin.
+    - destruct Hin as [Heq|[]]. exfalso. apply Hroot. rewrite Heq. now apply in_map.
+    - cbn [tl]. destruct Hin as [Heq|Hin].
+      + rewrite <- (id_inj e x He Hx Heq), Hp. destruct (chain_shape _ _ Hc) as ((t & ->) & _). now left.
+      + specialize (IH x Hx Hin). destruct path; [contradiction|]. now right.
+  Qed.
+
+  Lemma as_dict_nofuel fuel : forall path pid,
+    chain path pid -> (length es + 2 <= fuel + length path)%nat -> as_dict fuel es pid <> Fuel.
+  Proof.
+    induction fuel as [|fuel IH]; intros path pid Hc Hlen.
+    - exfalso. destruct (chain_shape _ _ Hc) as (_ & Hnd & Hinc).
+      pose proof (NoDup_incl_length Hnd Hinc) as Hle. cbn [length] in Hle. rewrite map_length in Hle. lia.
+    - rewrite as_dict_S. apply mapM_nofuel. intros [k e] Hin.
+      apply dict_of_in in Hin. cbn [snd] in Hin. unfold kidsf in Hin. apply filter_In in Hin.
+      destruct Hin as [He Hp]. apply id_eqb_eq in Hp. cbn [conv].
+      destruct (l_isnode e).
+      + assert (Hn : ~ In (l_id e) path).
+        { intros Hin. pose proof (chain_par _ _ Hc e He Hin) as Ht.
+          destruct (chain_shape _ _ Hc) as ((t & Hpath) & Hnd & _). rewrite Hpath in Ht, Hnd. cbn [tl] in Ht.
+          rewrite Hp in Ht. inversion Hnd as [|? ? Hnot _]. contradiction. }
+        pose proof (IH (l_id e :: path) (l_id e) (ch_step _ _ _ Hc He Hp Hn) ltac:(cbn [length]; lia)) as Hr.
+        destruct (as_dict fuel es (l_id e)); cbn [bind]; congruence.
+      + pose proof (Hval e He). destruct (l_val e); cbn [bind]; congruence.
+  Qed.
+
+  Theorem as_dict_terminates : as_dict (S (length es)) es root_id <> Fuel.
+  Proof. apply (as_dict_nofuel _ [root_id] root_id ch_root). cbn [length]. lia. Qed.
+End AsDictTerminates.
+
+(* ====================================================================== decoding terminates on every file *)
+Definition offsets_ok (kt : ktable) : Prop :=
+  NoDup (map r_off (kt_entries kt)) /\ Forall (fun r => 10 <= r_off r) (kt_entries kt).
+
+Lemma walk_offsets fuel : forall raw size eoff rs,
+  bytes_ok raw -> 0 <= eoff -> walk fuel raw size eoff = Ok rs ->
+  Forall (fun r => eoff <= r_off r) rs /\ NoDup (map r_off rs).
+Proof.
+  induction fuel as [|fuel IH]; intros raw size eoff rs Hb He; cbn [walk].
+  - destruct (eoff <? size); [discriminate|]. intros [= <-]. split; constructor.
+  - destruct (eoff <? size); [|intros [= <-]; split; constructor].
+    rewrite zskipn_eq. destruct (parse_khdr (skipn (Z.to_nat eoff) raw)) as [h|] eqn:Hp; [|discriminate].
+    destruct (parse_khdr_some _ _ Hp) as [_ Hnn]. specialize (Hnn (bytes_ok_skipn _ _ Hb)).
+    destruct (Z.eqb_spec (kh_size h) 0); [intros [= <-]; split; constructor|].
+    destruct (walk fuel raw size (eoff + kh_size h)) as [rest| |] eqn:Hw; cbn [bind]; try discriminate.
+    intros [= <-]. destruct (IH raw size (eoff + kh_size h) rest Hb ltac:(lia) Hw) as [Hge Hnd]. split.
+    + constructor; [cbn; lia|]. eapply Forall_impl; [|exact Hge]. cbn. intros; lia.
+    + cbn [map r_off]. constructor; [|exact Hnd]. intros Hin. apply in_map_iff in Hin.
+      destruct Hin as (r & Hr & Hin). rewrite Forall_forall in Hge. specialize (Hge r Hin). lia.
+Qed.
+
+Lemma parse_ktab_offsets raw size kt : bytes_ok raw -> parse_ktab raw size = Ok kt -> offsets_ok kt.
+Proof.
+  intros Hb. unfold parse_ktab.
+  destruct (parse_fields ktab_widths raw) as [[|sig [|idx [|seq [|ck [|]]]]]|]; try discriminate.
+  destruct (negb _); [discriminate|].
+  destruct (walk (S (length raw)) raw size ktab_hsize) as [es| |] eqn:Hw; cbn [bind]; try discriminate.
+  intros [= <-]. destruct (walk_offsets (S (length raw)) raw size ktab_hsize es Hb ltac:(change ktab_hsize with 10; lia) Hw) as [Hge Hnd].
+  split; [exact Hnd|]. exact Hge.
+Qed.
+
+Lemma register_elems t reg il x :
+  In il (register t reg) -> In x (snd il) -> x = t \/ exists il0, In il0 reg /\ In x (snd il0).
+Proof.
+  induction reg as [|[i l] reg IH]; cbn [register].
+  - intros [<-|[]] [<-|[]]. now left.
+  - destruct (i =? kt_index t).
+    + intros [<-|Hin] Hx.
+      * cbn [snd] in Hx. apply insert_seq_in in Hx. destruct Hx as [->|Hx]; [now left|].
+        right. exists (i, l). split; [now left|exact Hx].
+      * right. exists il. split; [now right|exact Hx].
+    + intros [<-|Hin] Hx.
+      * right. exists (i, l). split; [now left|exact Hx].
+      * destruct (IH Hin Hx) as [->|(il0 & H0 & Hx0)]; [now left|]. right. exists il0. split; [now right|exact Hx0].
+Qed.
+
+Section WorklistTables.
+  Variable ld_otab : Z -> res (list oentry).
+  Variable ld_ktab : Z -> Z -> res ktable.
+  Variable ld_rlog : Z -> res unit.
+  Variable Q : ktable -> Prop.
+  Hypothesis HQ : forall o s kt, ld_ktab o s = Ok kt -> Q kt.
+
+  Definition kts_inv (st : state) : Prop :=
+    NoDup (map fst (s_kts st)) /\ forall il x, In il (s_kts st) -> In x (snd il) -> Q x.
+
+  Lemma proc_entry_kinv e st st' :
+    kts_inv st -> proc_entry ld_otab ld_ktab ld_rlog e st = Ok st' -> kts_inv st'.
+  Proof.
+    intros Hinv. unfold proc_entry.
+    destruct (o_alloc e =? 0); [intros [= <-]; exact Hinv|].
+    destruct (o_type e =? E.hyperv_ObjectEntryType_ObjectTable).
+    { destruct (zmem _ _); [intros [= <-]; exact Hinv|].
+      destruct (ld_otab (o_off e)); cbn [bind]; try discriminate. intros [= <-]. exact Hinv. }
+    destruct (o_type e =? E.hyperv_ObjectEntryType_KeyTable).
+    { destruct (ld_ktab (o_off e) (o_size e)) as [kt| |] eqn:Hk; cbn [bind]; try discriminate.
+      intros [= <-]. destruct Hinv as [Hnd Hq]. split; cbn [s_kts].
+      - destruct (keys_register kt (s_kts st)) as [->|[Hn ->]]; [exact Hnd|].
+        apply NoDup_rev in Hnd. rewrite <- (rev_involutive (map fst (s_kts st) ++ [kt_index kt])). apply NoDup_rev.
+        rewrite rev_app_distr. cbn [rev app]. constructor; [|exact Hnd]. now rewrite <- in_rev.
+      - intros il x Hil Hx. destruct (register_elems _ _ _ _ Hil Hx) as [->|(il0 & H0 & Hx0)]; [eapply HQ; eassumption|eauto]. }
+    destruct (o_type e =? E.hyperv_ObjectEntryType_File); [intros [= <-]; exact Hinv|].
+    destruct (o_type e =? E.hyperv_ObjectEntryType_ReplayLog); [|intros [= <-]; exact Hinv].
+    destruct (ld_rlog (o_off e)); cbn [bind]; try discriminate. intros [= <-]. exact Hinv.
+  Qed.
+
+  Lemma proc_entries_kinv es : forall st st',
+    kts_inv st -> proc_entries ld_otab ld_ktab ld_rlog es st = Ok st' -> kts_inv st'.
+  Proof.
+    induction es as [|e es IH]; intros st st' Hinv; cbn [proc_entries]; [intros [= <-]; exact Hinv|].
+    destruct (proc_entry ld_otab ld_ktab ld_rlog e st) as [st1| |] eqn:H1; cbn [bind]; try discriminate.
+    apply IH. eapply proc_entry_kinv; eassumption.
+  Qed.
+
+  Lemma steps_kinv n : forall st st',
+    kts_inv st -> wl_steps ld_otab ld_ktab ld_rlog n st = WDone st' -> kts_inv st'.
+  Proof.
+    induction n as [|n IH]; intros st st' Hinv; cbn [wl_steps]; [discriminate|].
+    unfold wl_step. destruct (s_pending st) as [|t rest] eqn:Hp; [intros [= <-]; exact Hinv|].
+    destruct (proc_entries ld_otab ld_ktab ld_rlog t _) as [st1| |] eqn:Hpe; try discriminate.
+    apply IH. eapply proc_entries_kinv; [|exact Hpe]. exact Hinv.
+  Qed.
+
+  Lemma run_worklist_kinv k start st :
+    run_worklist ld_otab ld_ktab ld_rlog k start = Ok st -> kts_inv st.
+  Proof.
+    unfold run_worklist. destruct (ld_otab start) as [t0| |]; cbn [bind]; try discriminate.
+    rewrite iter_steps. destruct (wl_steps _ _ _ _ _) as [d| | |] eqn:Hs; try discriminate.
+    intros [= <-]. eapply steps_kinv; [|exact Hs]. split; cbn [init_state s_kts]; [constructor|intros il x []].
+  Qed.
+End WorklistTables.
+
+Lemma e_value_nofuel f fo r : e_value f fo r <> Fuel.
+Proof.
+  unfold e_value. destruct (e_data f fo r) as [d| |] eqn:Hd; cbn [bind]; [|discriminate|].
+  - destruct (assoc_z K.value_formats (e_typ r)) as [[fmt n]|].
+    + unfold take_uint. destruct (_ <? _); cbn [bind]; [discriminate|].
+      repeat (destruct (_ =? _); [discriminate|]). discriminate.
+    + destruct (zmem _ _); [|discriminate].
+      destruct (e_is_fop r); cbn [bind].
+      * destruct (_ =? _); [|discriminate]. destruct (units_of d); [|discriminate]. destruct (utf16_valid _); discriminate.
+      * unfold take_uint. destruct (_ <? _); cbn [bind]; [discriminate|].
+        destruct (_ =? _); [|discriminate]. destruct (units_of _); [|discriminate]. destruct (utf16_valid _); discriminate.
+  - exfalso. unfold e_data in Hd. destruct (e_is_fop r); [|discriminate].
+    destruct (fop_of _) as [[o s]|]; [|discriminate]. destruct (assoc_z fo o); discriminate.
+Qed.
+
+Lemma NoDup_map_filter {A B} (g : A -> B) (p : A -> bool) l : NoDup (map g l) -> NoDup (map g (filter p l)).
+Proof.
+  induction l as [|a l IH]; intros H; [constructor|]. cbn [map] in H. inversion H as [|? ? Hn Hd]; subst.
+  cbn [filter]. destruct (p a); [|auto]. cbn [map]. constructor; [|auto].
+  intros Hin. apply Hn. apply in_map_iff in Hin. destruct Hin as (x & Hx & Hin). apply filter_In in Hin.
+  rewrite <- Hx. apply in_map. tauto.
+Qed.
+
+Lemma NoDup_app_intro {A} (l l' : list A) :
+  NoDup l -> NoDup l' -> (forall x, In x l -> In x l' -> False) -> NoDup (l ++ l').
+Proof.
+  induction l as [|a l IH]; intros H1 H2 H3; [exact H2|]. inversion H1 as [|? ? Hn Hd]; subst.
+  cbn [app]. constructor.
+  - intros Hin. apply in_app_or in Hin. destruct Hin as [Hin|Hin]; [contradiction|]. apply (H3 a); [now left|exact Hin].
+  - apply IH; [exact Hd|exact H2|]. intros x Hx. apply H3. now right.
+Qed.
+
+(* the identities of the entries of the active tables are pairwise different and none is the root *)
+Lemma active_ids f fo (kts : list (Z * list ktable)) :
+  NoDup (map fst kts) -> (forall il x, In il kts -> In x (snd il) -> offsets_ok x) ->
+  let ts := flat_map (fun il : Z * list ktable =>
+                        match snd il with [] => [] | t :: _ => [(fst il, map (lentry_of f fo (fst il)) (kt_entries t))] end) kts in
+  NoDup (map l_id (concat (map snd ts))) /\ ~ In root_id (map l_id (concat (map snd ts))).
+Proof.
+  cbn zeta. induction kts as [|[i l] kts IH]; intros Hnd Hq; [split; [constructor|intros []]|].
+  cbn [map fst] in Hnd. inversion Hnd as [|? ? Hni Hnd']; subst.
+  destruct (IH Hnd' (fun il x Hil => Hq il x (or_intror Hil))) as [IH1 IH2].
+  cbn [flat_map fst snd]. destruct l as [|t l]; [split; assumption|].
+  cbn [app map concat snd]. rewrite map_app, map_map. cbn [lentry_of l_id].
+  destruct (Hq (i, t :: l) t (or_introl eq_refl) (or_introl eq_refl)) as [Hoff Hge].
+  assert (Hfst : forall p, In p (map l_id (concat (map snd (flat_map (fun il : Z * list ktable =>
+                        match snd il with [] => [] | t0 :: _ => [(fst il, map (lentry_of f fo (fst il)) (kt_entries t0))] end) kts)))) ->
+                    In (fst p) (map fst kts)).
+  { clear. induction kts as [|[j m] kts IHk]; cbn [flat_map]; [intros p []|].
+    intros p. cbn [fst snd]. destruct m as [|t0 m]; cbn [app map concat snd fst]; [intros H; right; auto|].
+    rewrite map_app, map_map. cbn [lentry_of l_id]. intros H. apply in_app_or in H. destruct H as [H|H]; [|right; auto].
+    apply in_map_iff in H. destruct H as (r & <- & _). now left. }
+  split.
+  - apply NoDup_app_intro; [| exact IH1 |].
+    + clear - Hoff. induction (kt_entries t) as [|r rs IHr]; [constructor|].
+      cbn [map r_off] in *. inversion Hoff as [|? ? Hn Hd]; subst. constructor; [|auto].
+      intros Hin. apply Hn. apply in_map_iff in Hin. destruct Hin as (r' & [= Heq] & Hin'). rewrite <- Heq. now apply in_map.
+    + intros p Hp1 Hp2. apply in_map_iff in Hp1. destruct Hp1 as (r & <- & _).
+      apply Hni. apply (Hfst _ Hp2).
+  - intros Hin. apply in_app_or in Hin. destruct Hin as [Hin|Hin]; [|contradiction].
+    apply in_map_iff in Hin. destruct Hin as (r & [= _ Hr] & Hin). rewrite Forall_forall in Hge. specialize (Hge r Hin). lia.
+Qed.
+
+(* HyperVFile(fh) followed by as_dict() (repaired code) terminates on every file: the model never
+   runs out of fuel, whatever the bytes *)
+Theorem decoding_terminates f :
+  file_ok f -> open_file f <> Fuel /\ forall p, open_file f = Ok p -> link (p_tables p) <> Fuel.
+Proof.
+  intros Hf. split; [now apply open_file_terminates|].
+  intros p. unfold open_file.
+  destruct (parse_fhdr (fread f C.hyperv_FIRST_HEADER_OFFSET fhdr_size)); cbn [of_option bind]; [|discriminate].
+  destruct (parse_fhdr (fread f C.hyperv_SECOND_HEADER_OFFSET fhdr_size)); cbn [of_option bind]; [|discriminate].
+  destruct (negb _); [discriminate|]. destruct (negb _); [discriminate|].
+  destruct (load_rlog f _); cbn [bind]; try discriminate.
+  destruct (run_worklist (load_otab f) (load_ktab f) (load_rlog f) (file_fuel f) C.hyperv_OBJECT_TABLE_OFFSET)
+    as [st| |] eqn:Hrun; cbn [bind]; try discriminate.
+  intros [= <-]. cbn [p_tables].
+  assert (Hinv : kts_inv offsets_ok st).
+  { eapply run_worklist_kinv; [|exact Hrun]. intros o s kt Hk. unfold load_ktab in Hk.
+    eapply parse_ktab_offsets; [|exact Hk]. apply fread_ok, Hf. }
+  destruct Hinv as [Hnd Hq].
+  destruct (active_ids f (s_fobjs st) (s_kts st) Hnd Hq) as [Hids Hroot]. fold (active_tables f st) in Hids, Hroot.
+  unfold link. destruct (forallb _ _); [|discriminate].
+  set (es := live_entries (active_tables f st)).
+  assert (Hterm : as_dict (S (length es)) es root_id <> Fuel).
+  { apply as_dict_terminates.
+    - apply NoDup_map_filter, Hids.
+    - intros Hin. apply Hroot. apply in_map_iff in Hin. destruct Hin as (e & He & Hin).
+      apply filter_In in Hin. rewrite <- He. apply in_map. tauto.
+    - intros e He. unfold es, live_entries in He. apply filter_In in He. destruct He as [He _].
+      apply in_concat in He. destruct He as (l & Hl & Hel). apply in_map_iff in Hl. destruct Hl as ([i l'] & Heq & Hts).
+      cbn [snd] in Heq. subst l'. unfold active_tables in Hts. apply in_flat_map in Hts. destruct Hts as ([j m] & _ & Hjm).
+      cbn [fst snd] in Hjm. destruct m as [|t m]; [contradiction|]. destruct Hjm as [[= <- <-]|[]].
+      apply in_map_iff in Hel. destruct Hel as (r & <- & _). cbn [lentry_of l_val]. apply e_value_nofuel. }
+  destruct (as_dict (S (length es)) es root_id); cbn [bind]; congruence.
+Qed.
